@@ -25,6 +25,7 @@ Import ListNotations.
 Open Scope Z_scope.
 
 Inductive err := TypeError | ValueError | IndexError | KeyError | OverflowError
+               | MemoryError
                | SegV            (* a write outside the allocated block *)
                | OutOfFuel.
 Inductive res (A : Type) := Ok (a : A) | Err (e : err).
@@ -326,9 +327,14 @@ Definition new_init (T : newtype) (init : pyval) : pyval :=
   | _, _ => init
   end.
 
+(* blocks larger than this cannot be allocated (any bound below the address-space size would do;
+   the harness only uses lengths below 2^20 or above 2^59) *)
+Definition MAX_ALLOC := 2 ^ 48.
+
 (* ffi.new(T, init): (bytes of the block = ffi.buffer(p), and its size = ffi.sizeof(p[0]) / sizeof(p)) *)
 Definition new_bytes (fuel : nat) (T : newtype) (init : pyval) : res mem :=
   bind (alloc_size fuel T init) (fun n =>
+  if MAX_ALLOC <? n then Err MemoryError else          (* calloc fails *)
   let m := zeros n in
   match new_init T init with
   | VNone => Ok m
@@ -433,7 +439,7 @@ with of_wkvs (l : wkvs) : list (Z * pyval) :=
 Inductive wout := WOk (n z : Z) | WErr (code : Z).
 Definition err_code (e : err) : Z :=
   match e with TypeError => 1 | ValueError => 2 | IndexError => 3 | KeyError => 4
-             | OverflowError => 5 | SegV => 6 | OutOfFuel => 7 end.
+             | OverflowError => 5 | SegV => 6 | OutOfFuel => 7 | MemoryError => 8 end.
 Definition to_wout (r : res mem) : wout :=
   match r with Ok m => WOk (mlen m) (le_decode m) | Err e => WErr (err_code e) end.
 Definition wout_eqb (x y : wout) : bool :=
@@ -455,13 +461,20 @@ Definition FUEL := 40%nat.
 Definition newtype_of (isptr : bool) (t : wlt) (len : Z) : newtype :=
   if isptr then NewPtr (of_wlt t) else NewArr (of_wlt t) len.
 
+(* ffi.buffer(p) of a `char *` / `wchar_t *` shows the item only, not the extra NUL slot *)
+Definition observe_new (T : newtype) (r : res mem) : res mem :=
+  match T, r with
+  | NewPtr (LPrim KChar s), Ok m => Ok (firstn (Z.to_nat s) m)
+  | _, _ => r
+  end.
+
 Fixpoint c20_mismatches (i : Z) (cs : wcases20) : list Z :=
   match cs with
   | C20Nil => []
   | C20Cons isptr t len init asize do_assign rnew rassign rest =>
       let T := newtype_of isptr t len in
       let v := of_wval init in
-      let ok1 := wout_eqb (to_wout (new_bytes FUEL T v)) rnew in
+      let ok1 := wout_eqb (to_wout (observe_new T (new_bytes FUEL T v))) rnew in
       let ok2 := if do_assign then wout_eqb (to_wout (assign_bytes FUEL T v asize)) rassign else true in
       let ok3 := wf_type (new_target T) in
       let tl := c20_mismatches (i + 1) rest in
@@ -469,5 +482,5 @@ Fixpoint c20_mismatches (i : Z) (cs : wcases20) : list Z :=
   end.
 Definition c20_detail (isptr : bool) (t : wlt) (len : Z) (init : wval) (asize : Z) :=
   let T := newtype_of isptr t len in
-  (to_wout (new_bytes FUEL T (of_wval init)), to_wout (assign_bytes FUEL T (of_wval init) asize),
+  (to_wout (observe_new T (new_bytes FUEL T (of_wval init))), to_wout (assign_bytes FUEL T (of_wval init) asize),
    wf_type (new_target T), no_var_items (new_target T)).
